@@ -77,7 +77,14 @@ ValueOK(o) ==
   /\ o.inj[1] = o.inj[2]
   /\ IF Cases[o.ci].alloc THEN NoPtr(o.inj[1]) = NoPtr(o.home[1]) ELSE o.inj[1] = o.home[1]
 
-ObsOK(o) == IF o.cmd = "gen" THEN GenOK(o) ELSE IF o.cmd = "check" THEN CheckOK(o)
+\* copied declarations (C15): every non-injector declaration exactly once and in source order; the package builds with and
+\* without the wireinject tag; the probe that exercises the declarations observes the same values under both builds
+CopyOK(o) ==
+  /\ o.declared = o.expected                  \* names of the copied top-level declarations, in order
+  /\ o.built_default = "ok" /\ o.built_inject = "ok"
+  /\ o.probe_default = o.probe_inject /\ Len(o.probe_default) >= 1
+
+ObsOK(o) == IF o.cmd = "copy" THEN CopyOK(o) ELSE IF o.cmd = "gen" THEN GenOK(o) ELSE IF o.cmd = "check" THEN CheckOK(o)
             ELSE IF o.cmd = "show" THEN ShowOK(o) ELSE IF o.cmd = "value" THEN ValueOK(o) ELSE FALSE
 
 \* one line per rejected observation, then the completion marker
